@@ -1,6 +1,7 @@
 package props
 
 import (
+	"context"
 	"bytes"
 	"fmt"
 	"math/big"
@@ -253,16 +254,59 @@ func callTreeWorkload(c Case, tier string, res *CaseResult, each func(tr treeRun
 			dc.Tx.Gas += 200000
 		}
 		fs := h.NewForkSession(dc.World, dc.Env, h.ForkOpts{Debug: true, RecSteps: true, JoinPoints: c.Seed%2 == 0})
+		// the host's context may be cancelled (or past its deadline) before the transaction or while it runs:
+		// whatever the VM then does, its call tree has to be closed and well formed afterwards
+		ctxMode := int(c.Seed>>8) % 6 // 1: cancelled before; 2: cancelled at the first CALL/CREATE instruction
+		var cancel context.CancelFunc
+		if ctxMode == 1 || ctxMode == 2 {
+			fs.Ctx, cancel = context.WithCancel(fs.Ctx)
+			if ctxMode == 1 {
+				cancel()
+			} else {
+				fs.Rec.OnStep = func(e *h.Event, scope *avm.ScopeContext) {
+					switch e.Op {
+					case h.CALL, h.CALLCODE, h.DELEGATECALL, h.STATICCALL, h.CREATE, h.CREATE2:
+						cancel()
+					}
+				}
+			}
+			res.Count("cancelled_context_runs", 1)
+		}
 		ir := fs.Invoke(dc.Tx)
 		if ir.Panic != "" {
 			res.Count("panics_seen", 1)
 			return
 		}
-		finish(fs, dc.Desc, "gen")
+		tag := "gen"
+		if cancel != nil {
+			tag = "gen-ctx-cancelled"
+		}
+		finish(fs, dc.Desc, tag)
+		if cancel != nil {
+			cancel()
+			fs.Ctx = h.WithExec(context.Background(), fs.X)
+			fs.Rec.OnStep = nil
+		}
 		// repeated top-level invocations on the same EVM
 		r := h.NewRNG(c.Seed ^ 0x77)
 		k := r.Intn(3)
 		for j := 0; j < k; j++ {
+			if r.Chance(50) {
+				// between two transactions a host uses the recorder's public bookkeeping API outside any call
+				// (fee transfers, state written by the host itself, asking for the current index)
+				tr := fs.EVM.Tracer()
+				_ = tr.CurrentCallIndex()
+				switch r.Intn(3) {
+				case 0:
+					tr.SaveRawStateChange(h.ContractAddr(0), *uint256.NewInt(uint64(900 + j)), common.Hash{31: byte(j + 1)})
+				case 1:
+					tr.TransferWithRecord(fs.EVM.StateDB, h.EOARich, h.Sender, big.NewInt(1), func(db avm.StateDB, from, to common.Address, amount *big.Int) {
+						db.SubBalance(from, amount)
+						db.AddBalance(to, amount)
+					})
+				}
+				res.Count("host_api_between_calls", 1)
+			}
 			tx := h.TxSpec{Entry: h.ECall, From: h.Sender, To: h.ContractAddr(r.Intn(2)), Input: r.Bytes(r.Intn(40)), Gas: uint64(30000 + r.Intn(200000)), Value: big.NewInt(int64(r.Intn(3)))}
 			if r.Chance(20) {
 				tx = h.TxSpec{Entry: h.ECreate, From: h.Sender, Input: h.InitTemplate(r, r.Intn(h.NumInitTemplates)), Gas: 200000, Value: big.NewInt(0)}
